@@ -24,7 +24,18 @@ type elemDecoder struct {
 var elemDecoders = []elemDecoder{
 	{"Decode", ref.FormAny, (*secp256k1.Element).Decode},
 	{"UnmarshalBinary", ref.FormAny, (*secp256k1.Element).UnmarshalBinary},
-	{"DecodeHex", ref.FormAny, func(e *secp256k1.Element, b []byte) error { return e.DecodeHex(hex.EncodeToString(b)) }},
+	{"DecodeHex", ref.FormAny, func(e *secp256k1.Element, b []byte) error {
+		// lower case on the receiver, upper case on a copy of it: both must agree
+		up := e.Copy()
+		errU := up.DecodeHex(strings.ToUpper(hex.EncodeToString(b)))
+		errL := e.DecodeHex(hex.EncodeToString(b))
+
+		if (errU == nil) != (errL == nil) || rawOf(up) != rawOf(e) {
+			panic(fmt.Sprintf("DecodeHex depends on the case of the hexadecimal digits: lower %v, upper %v", errL, errU))
+		}
+
+		return errL
+	}},
 	{"DecodeCompressed", ref.FormCompressed, (*secp256k1.Element).DecodeCompressed},
 	{"DecodeUncompressed", ref.FormUncompressed, (*secp256k1.Element).DecodeUncompressed},
 }
@@ -168,6 +179,10 @@ func c03Case(di int, b []byte, which int, scratch []byte) (key, detail, class st
 	}
 
 	return "", "", class
+}
+
+func isHexDigit(c byte) bool {
+	return c >= '0' && c <= '9' || c >= 'a' && c <= 'f' || c >= 'A' && c <= 'F'
 }
 
 func c03HexMalformed(h string, which int) (key, detail string) {
@@ -390,6 +405,20 @@ func C03real(r *ev.Report) {
 
 	good := hex.EncodeToString(ref.Enc(ref.G()))
 	bad := []string{good[:65], good + "0", "0x" + good[2:], "g" + good[1:], good[:31] + "z" + good[32:], strings.Repeat("zz", 33), "0", "zz", "0g"}
+
+	// every byte value that is not a hexadecimal digit, at the first, second, middle and last two positions of
+	// valid compressed, uncompressed and identity encodings (a hand-written digit test is wrong for single bytes)
+	for _, g := range []string{good, hex.EncodeToString(ref.EncUncompressed(ref.G())), "00"} {
+		for _, pos := range []int{0, 1, len(g) / 2, len(g) - 2, len(g) - 1} {
+			for c := 0; c < 256; c++ {
+				if isHexDigit(byte(c)) {
+					continue
+				}
+
+				bad = append(bad, g[:pos]+string([]byte{byte(c)})+g[pos+1:])
+			}
+		}
+	}
 
 	for _, h := range bad {
 		for which := 0; which < 2; which++ {
